@@ -52,3 +52,39 @@ pub fn create_mmap(file: &FileG, Tracked(w): Tracked<&mut GW>) -> (r: std::resul
     ensures r is Ok ==> *final(w) == (GW { mapped: old(w).file_len, ..*old(w) }), r is Err ==> *final(w) == *old(w)
 { unimplemented!() }
 impl From<IoErr> for Error { #[verifier::external_body] fn from(e: IoErr) -> (r: Error) { unimplemented!() } }
+
+// ---- Region::batch_write_each ----
+#[verifier::external_body] pub struct RegionB { _p: core::marker::PhantomData<u8> }
+#[verifier::external_body] pub struct MetaB { _p: core::marker::PhantomData<u8> }
+#[verifier::external_body] pub struct SliceMutB { _p: core::marker::PhantomData<u8> }
+#[verifier::external_body] #[derive(Clone, Copy)] pub struct PtrB { _p: core::marker::PhantomData<u8> }
+impl RegionB {
+    pub uninterp spec fn start_v(&self) -> usize;
+    pub uninterp spec fn len_v(&self) -> usize;
+    #[verifier::external_body] pub fn meta(&self) -> (m: MetaB) ensures m.start_v() == self.start_v(), m.len_v() == self.len_v() { unimplemented!() }
+    pub uninterp spec fn db_flen(&self) -> usize;
+    #[verifier::external_body] pub fn db(&self) -> (d: DatabaseW) ensures d.flen() == self.db_flen() { unimplemented!() }
+    // the dirty-bounds mutex update at the end of batch_write_each
+    #[verifier::external_body] pub fn merge_dirty_bounds(&self, lo: usize, hi: usize) { unimplemented!() }
+}
+impl MetaB {
+    pub uninterp spec fn start_v(&self) -> usize;
+    pub uninterp spec fn len_v(&self) -> usize;
+    #[verifier::external_body] pub fn start(&self) -> (r: usize) ensures r == self.start_v() { unimplemented!() }
+    #[verifier::external_body] pub fn len(&self) -> (r: usize) ensures r == self.len_v() { unimplemented!() }
+}
+impl MmapH {
+    #[verifier::external_body] pub fn as_mut_ptr_b(&self) -> (p: PtrB) ensures p.mlen() == self.mlen() { unimplemented!() }
+}
+impl PtrB {
+    pub uninterp spec fn mlen(&self) -> usize;
+    // N11: `unsafe { slice::from_raw_parts_mut(ptr.add(abs), n) }`: a mutable window of the mapping.
+    // C01: it lies inside [lo, hi), the writing region's own data; C20: inside the mapping
+    #[verifier::external_body]
+    pub fn window_mut(self, abs: usize, n: usize, Ghost(lo): Ghost<int>, Ghost(hi): Ghost<int>) -> (r: SliceMutB)
+        requires abs + n <= self.mlen(), lo <= abs, abs + n <= hi
+    { unimplemented!() }
+}
+// write_fn(&value, slice): the caller's serialiser, not reasoned about
+#[verifier::external_body] pub fn call_write_fn<T, F>(f: &F, value: &T, slice: SliceMutB) { unimplemented!() }
+#[verifier::external_body] pub fn drop<T>(t: T) { }
